@@ -499,7 +499,7 @@ func (fr *Frame) safety(kind, cond string, b *ssa.BasicBlock, in ssa.Instruction
 	if cond == "true" {
 		return
 	}
-	if fr.isTop && !fc.thin && fc.spec != nil && !fc.spec.MayPanic {
+	if !fc.thin && fc.spec != nil && !fc.spec.MayPanic {
 		fc.callOrd["safety:"+kind]++
 		fc.addOblig(&Oblig{Name: fmt.Sprintf("%s/safety:%s#%d", fc.spec.Name, kind, fc.callOrd["safety:"+kind]), Kind: "safety:" + kind,
 			Tags: fc.spec.Tags, goal: sImp(fr.reach[b], cond), Text: strings.TrimSpace(in.String())})
@@ -1328,4 +1328,44 @@ func guardTags(fc *FnCtx) []string {
 		return fc.spec.Tags
 	}
 	return nil
+}
+
+// lookupExitLocal resolves a local variable at the function's (merged) exit: only variables that denote one SSA value
+// over the whole function (single definition) or that live in a memory cell are available.
+func (fr *Frame) lookupExitLocal(name string, st *State) (Val, bool) {
+	fc := fr.fc
+	for _, b := range fr.fn.Blocks {
+		for _, in := range b.Instrs {
+			if a, ok := in.(*ssa.Alloc); ok && a.Comment == name {
+				if ad, ok := fr.addrs[a]; ok {
+					return fc.load(st, ad, pointee(a.Type())), true
+				}
+				if v, ok := fr.vals[a]; ok {
+					return fc.load(st, &Addr{Kind: aCell, Obj: v.S}, pointee(a.Type())), true
+				}
+			}
+		}
+	}
+	var found ssa.Value
+	for _, b := range fr.fn.Blocks {
+		for _, in := range b.Instrs {
+			d, ok := in.(*ssa.DebugRef)
+			if !ok || d.IsAddr || d.Object() == nil || d.Object().Name() != name {
+				continue
+			}
+			if _, isVar := d.Object().(*types.Var); !isVar {
+				continue
+			}
+			if found != nil && found != d.X {
+				return Val{}, false
+			}
+			found = d.X
+		}
+	}
+	if found != nil {
+		if v, ok := fr.vals[found]; ok {
+			return v, true
+		}
+	}
+	return Val{}, false
 }
